@@ -3,6 +3,8 @@ package main
 import (
 	"fmt"
 	"go/constant"
+	"go/token"
+	"go/types"
 	"strings"
 
 	"golang.org/x/tools/go/ssa"
@@ -241,7 +243,7 @@ func checkC11(w *World, r *Report) {
 			if e.Kind == "call" && strings.HasSuffix(e.Target, "RWMutex).Unlock") {
 				locked = false
 			}
-			if e.Kind == "call" && e.Callee == ro.CancelInt {
+			if e.Kind == "call" && e.Callee != nil && (e.Callee == ro.CancelInt || len(ro.callsReaching(e.Callee, func(f *ssa.Function) bool { return f == ro.CancelInt })) > 0 && e.Callee.Signature.Params().Len() == 1) {
 				if e.Val == "recv,rangekey(recv.jobsByID)" && locked && forced {
 					cancels = true
 				} else {
@@ -424,6 +426,40 @@ func persistCoverage(w *World, r *Report, ro *Roles) {
 		})
 		if recvs && saves {
 			loop = true
+		}
+	}
+	// token rule: between two receives on the request channel there is always a save
+	for _, fn := range w.ModFuncs {
+		var recvs []ssa.Instruction
+		allInstrs(fn, func(in ssa.Instruction) {
+			switch x := in.(type) {
+			case *ssa.Select:
+				for _, st := range x.States {
+					if st.Dir == types.RecvOnly && strings.HasSuffix(w.AP(st.Chan), ".persistRequests") {
+						recvs = append(recvs, in)
+					}
+				}
+			case *ssa.UnOp:
+				if x.Op == token.ARROW && strings.HasSuffix(w.AP(x.X), ".persistRequests") {
+					recvs = append(recvs, in)
+				}
+			}
+		})
+		for _, rc := range recvs {
+			saves := func(x ssa.Instruction) bool {
+				c := callCommonOf(x)
+				return c != nil && c.StaticCallee() == ro.Save
+			}
+			// a select may also take another branch (ctx.Done → return): only paths that come back to a receive matter
+			res := PathQuery{Fn: fn, Start: []ssa.Instruction{rc}, Target: func(x ssa.Instruction) bool {
+				for _, r2 := range recvs {
+					if r2 == x {
+						return true
+					}
+				}
+				return false
+			}, BlockInstr: saves}.Find()
+			r.Check(!res.Found, "persist.request-consumed-implies-save", FuncName(fn)+": receive on the persist-request channel", w.InstrPos(rc), "every path from this receive to the next receive passes a save: a consumed request is never dropped", "a persist request can be consumed and the next one awaited without a save in between ("+res.String()+"): a change made while a save was in progress never reaches the store")
 		}
 	}
 	r.Check(loop, "persist.loop", "persist loop: receives requests and saves", w.Pos(ro.Persist.Pos()), "a goroutine receives on the persist-request channel and calls the save", "no goroutine turns persist requests into saves")
